@@ -47,6 +47,9 @@ def step (d : D) (op impl : String) : D × DrvOut :=
         | none => (d.sp, "FAIL unparsable implementation answer")
       ({ d with st := st', sp := sp', n := d.n + 1 }, { model := fmtOuts outs st', spec := verdict })
     | _, _ => (d, { model := "bad-op" })
+  | ["recheck"] =>
+    -- spec only (the model's lists are values): a list returned by an earlier Push must not change afterwards
+    (d, { model := "same", spec := if impl == "same" then "ok" else "FAIL a list returned by an earlier Push was modified by a later one (the caller walks it after the lock is released)" })
   | _ => (d, { model := "bad-op" })
 
 def main (args : List String) : IO UInt32 := runDriver args ({} : D) step
